@@ -24,6 +24,14 @@ CLAIMED = {
         ref="DESIGN.md section 5 C14",
         technique="Coq proof (machine invariant by induction over commands; bit-level lemmas by testbit rewriting) + translator for DR constants + differential correspondence (unit and end-to-end) evaluated by vm_compute",
         note=TB + " ptrace debug-register writes are assumed to succeed in the theorem (the e2e leg observes what the kernel really holds); data-breakpoint delivery is not available on this machine, so hit reporting is not exercised."),
+    "C15": dict(
+        text=("Theorems (Coq): read_memory returns exactly the requested bytes iff all are mapped, at any alignment/length (C15_read_exact); write_bytes "
+              "changes exactly [a,a+n) for any alignment and length and fails with EIO when a target byte is unmapped (C15_write_exact / _unmapped_fails), by "
+              "induction over the word loops; register update/read and user_regs round trips over tables regenerated from the source. Tie: real reads and "
+              "writes on a debuggee with holes, PROT_NONE and read-only pages, decided in Coq against /proc/<pid>/mem snapshots; registers against PTRACE_GETREGS."),
+        ref="DESIGN.md section 5 C15",
+        technique="Coq proof (induction over the peek/poke word loops) + translator for register tables + end-to-end differential correspondence evaluated by vm_compute",
+        note=TB + " ptrace word semantics (8 bytes, EIO unless all mapped) and page-granular mappings are assumed; disassembly masking and DAP setVariable are not yet in the model."),
 }
 
 NOT_YET = {
